@@ -12,6 +12,9 @@ import (
 // Family "read_c11" (C11, the clause about sse.Read): the real sse.Read over a scripted io.Reader that
 // delivers given bytes in given chunks and then ends with io.EOF or an injected error (reported with
 // the last bytes or by a separate call).  Observed: the events yielded and the error yielded, if any.
+// The injected error is a value of any character (scriptedErr in connect.go: plain, Temporary/Timeout,
+// wrapping io.EOF / io.ErrUnexpectedEOF / a deadline error, a *net.OpError around a wrapped io.EOF);
+// whatever it looks like it is a read error and must be yielded as itself (projected by identity).
 
 func init() { families["read_c11"] = family{gen: genReadC11, exec: execReadC11} }
 
@@ -53,8 +56,11 @@ func genReadC11(c *Ctx) {
 	}
 	emit := func(body string, e int, withLast bool) {
 		ending := val.L(val.N(0))
-		if e == 1 {
-			ending = val.L(val.N(1), val.N(uint64(100+r.Intn(5))))
+		switch e {
+		case 1:
+			ending = val.L(val.N(1), val.N(connErrIdx(r, c, 100)))
+		case 2: // a read error that wraps io.EOF
+			ending = val.L(val.N(1), val.N(3101))
 		}
 		c.Emit(val.L(val.S(body), ending, connChunks(r, len(body)), val.Bool(withLast)))
 	}
@@ -69,7 +75,7 @@ func genReadC11(c *Ctx) {
 	// endings after every byte position of short streams
 	for _, s := range []string{"data: a\n\nid: 1\n\n", "id: 5\ndata: x\r\n\r\n: c\n", "\xef\xbb\xbfretry: 1\n\ndata: y\n\n", "data: a\n\n\n", "\n", "id: 3\revent: t\r\r", "data: a\r\n\r\ndata: b\r\n"} {
 		for cut := 0; cut <= len(s); cut++ {
-			for e := 0; e < 2; e++ {
+			for e := 0; e < 3; e++ {
 				c.Count("cut-sweep")
 				emit(s[:cut], e, r.Bool())
 			}
